@@ -31,6 +31,7 @@ type Reader struct {
 	version     PDFVersion
 	objCache    map[int]core.Object        // Cache for loaded objects
 	objStmCache map[int]*core.ObjectStream // Cache for object streams
+	loading     map[int]bool               // Objects currently being loaded (cycle guard)
 	fileSize    int64
 	pageTree    *pages.PageTree // Cached page tree
 }
@@ -182,6 +183,18 @@ func (r *Reader) GetObject(objNum int) (core.Object, error) {
 	if !entry.InUse {
 		return nil, fmt.Errorf("object %d is not in use", objNum)
 	}
+
+	// Loading an object can require other objects (an indirect /Length, the
+	// object stream it lives in). If that leads back to the object itself the
+	// file is damaged; without this guard the lookups would recurse for ever.
+	if r.loading[objNum] {
+		return nil, fmt.Errorf("object %d is needed to load itself (circular reference)", objNum)
+	}
+	if r.loading == nil {
+		r.loading = make(map[int]bool)
+	}
+	r.loading[objNum] = true
+	defer delete(r.loading, objNum)
 
 	var obj core.Object
 	var err error
